@@ -138,13 +138,25 @@ impl Prop for C17 {
                 1 => {
                     let k = src.below(5);
                     let ids = distinct_ids(src, k);
-                    Call::MultiPut { ks, docs: ids.into_iter().map(|id| (id, gen_stamp(src), gen_len(src).min(400))).collect() }
+                    let mut docs: Vec<(u64, Stamp, usize)> = ids.into_iter().map(|id| (id, gen_stamp(src), gen_len(src).min(400))).collect();
+                    // a batch may name an id twice (the keyspace actor used to pass such batches on): entries apply
+                    // in order, the last one wins
+                    if !docs.is_empty() && src.chance(1, 4) {
+                        let again = docs[src.below(docs.len())].0;
+                        docs.push((again, gen_stamp(src), gen_len(src).min(400)));
+                    }
+                    Call::MultiPut { ks, docs }
                 },
                 2 => Call::Tombstone { ks, id: gen_id(src), stamp: gen_stamp(src) },
                 3 => {
                     let k = src.below(5);
                     let ids = distinct_ids(src, k);
-                    Call::MultiTombstone { ks, docs: ids.into_iter().map(|id| (id, gen_stamp(src))).collect() }
+                    let mut docs: Vec<(u64, Stamp)> = ids.into_iter().map(|id| (id, gen_stamp(src))).collect();
+                    if !docs.is_empty() && src.chance(1, 4) {
+                        let again = docs[src.below(docs.len())].0;
+                        docs.push((again, gen_stamp(src)));
+                    }
+                    Call::MultiTombstone { ks, docs }
                 },
                 4 => Call::RemoveTombstones { ks, picks: (0..src.below(4)).map(|_| src.word()).collect() },
                 5 => Call::Get { ks, id: gen_id(src) },
@@ -209,7 +221,8 @@ impl Prop for C17 {
     }
 
     fn rule(&self) -> &'static str {
-        "1-40 Storage calls (put, multi_put, mark_as_tombstone, mark_many_as_tombstone, remove_tombstones on ids that \
+        "1-40 Storage calls (put, multi_put and mark_many_as_tombstone with distinct ids or one id named twice, \
+         mark_as_tombstone, remove_tombstones on ids that \
          are tombstones or absent, get, multi_get, iter_metadata, get_keyspace_list; for file-backed stores also close \
          + reopen at any point) over 1-3 keyspaces; ids from {0,1,2,3,2^63-1,2^63,2^64-2,2^64-1,random}, payloads \
          empty / 1 B / up to 300 B / 64 KiB, stamps from the extremes of every field; oracle: every read call of the sequence returns what a HashMap \
